@@ -32,14 +32,18 @@ import (
 
 	sdkmath "cosmossdk.io/math"
 	wasmtypes "github.com/CosmWasm/wasmd/x/wasm/types"
+	tmdb "github.com/cometbft/cometbft-db"
 	abci "github.com/cometbft/cometbft/abci/types"
+	"github.com/cometbft/cometbft/libs/log"
 	codectypes "github.com/cosmos/cosmos-sdk/codec/types"
 	"github.com/cosmos/cosmos-sdk/crypto/keys/ed25519"
 	"github.com/cosmos/cosmos-sdk/crypto/keys/secp256k1"
+	"github.com/cosmos/cosmos-sdk/testutil/sims"
 	sdk "github.com/cosmos/cosmos-sdk/types"
 	authtypes "github.com/cosmos/cosmos-sdk/x/auth/types"
 	"github.com/cosmos/cosmos-sdk/x/authz"
 	banktypes "github.com/cosmos/cosmos-sdk/x/bank/types"
+	genutiltypes "github.com/cosmos/cosmos-sdk/x/genutil/types"
 	govtypes "github.com/cosmos/cosmos-sdk/x/gov/types"
 	govv1 "github.com/cosmos/cosmos-sdk/x/gov/types/v1"
 	stakingtypes "github.com/cosmos/cosmos-sdk/x/staking/types"
@@ -48,8 +52,12 @@ import (
 	"verifharness/c17/txutil"
 	. "verifharness/hx"
 
+	"github.com/NibiruChain/nibiru/v2/app"
 	"github.com/NibiruChain/nibiru/v2/app/ante"
+	"github.com/NibiruChain/nibiru/v2/x/common/testutil"
+	epochstypes "github.com/NibiruChain/nibiru/v2/x/epochs/types"
 	"github.com/NibiruChain/nibiru/v2/x/evm"
+	sudotypes "github.com/NibiruChain/nibiru/v2/x/sudo/types"
 )
 
 const (
@@ -80,7 +88,18 @@ type txIn struct {
 
 type caseIn struct {
 	MinRate string `json:"min_rate"` // staking param MinCommissionRate (raw Dec)
-	Txs     []txIn `json:"txs"`
+	// genutil gen_txs: transactions x/genutil delivers through DeliverTx during InitChain (block height 0).  A case
+	// with gentxs runs on a chain of its own whose genesis has NO pre-set validator; only actors 0..3 exist then
+	GenTxs []txIn `json:"gentxs,omitempty"`
+	Txs    []txIn `json:"txs"`
+}
+
+type genObs struct {
+	Started bool     `json:"started"` // InitChain succeeded (a failing gentx makes it panic)
+	Vals    []valObs `json:"vals"`
+	AllMax  string   `json:"allmax"`
+	SetupDt int      `json:"setup_dt"` // seconds from genesis time to the end of the setup blocks
+	Log     string   `json:"-"`
 }
 
 type valObs struct {
@@ -152,6 +171,104 @@ func newWorld(t *testing.T) *world {
 	w.codeID = sr.CodeID
 	c.EndBlock()
 	return w
+}
+
+// newGenesisWorld builds a chain whose genesis carries the case's gentxs (and no pre-set validator): key accounts
+// 0..3 are genesis accounts, x/genutil delivers the gentxs from InitChain.
+func newGenesisWorld(t *testing.T, ci caseIn) (*world, genObs) {
+	worldCounter++
+	w := &world{tag: worldCounter}
+	for i := 0; i < nUsers; i++ {
+		w.users = append(w.users, secp256k1.GenPrivKeyFromSecret([]byte(fmt.Sprintf("c17-user-%d-%d", worldCounter, i))))
+	}
+	w.sink = sdk.AccAddress([]byte("c17-sink____________"))
+	w.gov = authtypes.NewModuleAddress(govtypes.ModuleName)
+	w.contract = sdk.AccAddress([]byte("c17-no-contract-yet_"))
+	napp := app.NewNibiruApp(log.NewNopLogger(), tmdb.NewMemDB(), nil, true, sims.EmptyAppOptions{})
+	cdc := napp.AppCodec()
+	txCfg := app.MakeEncodingConfig().TxConfig
+	gen := napp.DefaultGenesis()
+	gen[epochstypes.ModuleName] = cdc.MustMarshalJSON(epochstypes.DefaultGenesisFromTime(GenesisTime))
+	gen[sudotypes.ModuleName] = cdc.MustMarshalJSON(&sudotypes.GenesisState{Sudoers: sudotypes.Sudoers{Root: testutil.ADDR_SUDO_ROOT, Contracts: []string{testutil.ADDR_SUDO_ROOT}}})
+	var accs []authtypes.GenesisAccount
+	var bals []banktypes.Balance
+	for _, k := range w.users {
+		a := sdk.AccAddress(k.PubKey().Address())
+		accs = append(accs, authtypes.NewBaseAccount(a, nil, 0, 0))
+		bals = append(bals, banktypes.Balance{Address: a.String(), Coins: Unibi(1e15)})
+	}
+	gen[authtypes.ModuleName] = cdc.MustMarshalJSON(authtypes.NewGenesisState(authtypes.DefaultParams(), accs))
+	gen[banktypes.ModuleName] = cdc.MustMarshalJSON(banktypes.NewGenesisState(banktypes.DefaultParams(), bals, nil, []banktypes.Metadata{}, []banktypes.SendEnabled{}))
+	sp := stakingtypes.DefaultParams()
+	sp.MinCommissionRate = decOf(ci.MinRate)
+	gen[stakingtypes.ModuleName] = cdc.MustMarshalJSON(stakingtypes.NewGenesisState(sp, nil, nil))
+	seqs := map[int]uint64{}
+	var raws []json.RawMessage
+	for _, gtx := range ci.GenTxs {
+		msgs, err := w.buildAll(gtx.Msgs)
+		if err != nil || gtx.Signer < 0 || gtx.Signer >= nUsers {
+			return w, genObs{Started: false, Vals: []valObs{}, AllMax: "0", Log: fmt.Sprint("build: ", err)}
+		}
+		tx, err := txutil.SignTxWith(txCfg, w.users[gtx.Signer], "", 0, seqs[gtx.Signer], 40_000_000, Unibi(1_000_000), nil, msgs...)
+		if err != nil {
+			return w, genObs{Started: false, Vals: []valObs{}, AllMax: "0", Log: "sign: " + err.Error()}
+		}
+		seqs[gtx.Signer]++
+		bz, err := txCfg.TxJSONEncoder()(tx)
+		if err != nil {
+			return w, genObs{Started: false, Vals: []valObs{}, AllMax: "0", Log: "encode: " + err.Error()}
+		}
+		raws = append(raws, bz)
+	}
+	gen[genutiltypes.ModuleName] = cdc.MustMarshalJSON(&genutiltypes.GenesisState{GenTxs: raws})
+	stateBytes, err := json.Marshal(gen)
+	if err != nil {
+		t.Fatal(err)
+	}
+	if p := Recover(func() {
+		napp.InitChain(abci.RequestInitChain{ConsensusParams: sims.DefaultConsensusParams, AppStateBytes: stateBytes, Time: GenesisTime})
+	}); p != "" {
+		return w, genObs{Started: false, Vals: []valObs{}, AllMax: "0", Log: "InitChain panic: " + p}
+	}
+	napp.Commit()
+	w.c = &Chain{App: napp, TxCfg: txCfg, Time: GenesisTime}
+	c := w.c
+	// setup block: the reflect contract (owner = user 0), funds for the contract and the gov account
+	c.BeginBlock(5 * time.Second)
+	ctx := c.Ctx()
+	g := genObs{Started: true, SetupDt: 5}
+	o := w.observe(abci.ResponseDeliverTx{}, 0, -1)
+	g.Vals, g.AllMax = o.Vals, o.AllMax
+	if reflectCode == nil {
+		bz, err := os.ReadFile(repoDir() + "/x/devgas/v1/keeper/testdata/reflect.wasm")
+		if err != nil {
+			t.Fatal(err)
+		}
+		reflectCode = bz
+	}
+	owner := w.addr(0)
+	store := &wasmtypes.MsgStoreCode{Sender: owner.String(), WASMByteCode: reflectCode}
+	rsp, err := c.App.MsgServiceRouter().Handler(store)(ctx, store)
+	if err != nil {
+		t.Fatal(err)
+	}
+	var sr wasmtypes.MsgStoreCodeResponse
+	_ = cdc.Unmarshal(rsp.Data, &sr)
+	inst := &wasmtypes.MsgInstantiateContract{Sender: owner.String(), CodeID: sr.CodeID, Label: "reflect", Msg: []byte(`{}`)}
+	rsp, err = c.App.MsgServiceRouter().Handler(inst)(ctx, inst)
+	if err != nil {
+		t.Fatal(err)
+	}
+	var ir wasmtypes.MsgInstantiateContractResponse
+	_ = cdc.Unmarshal(rsp.Data, &ir)
+	w.contract = sdk.MustAccAddressFromBech32(ir.Address)
+	for _, a := range []sdk.AccAddress{w.contract, w.gov} {
+		if err := c.Fund(a, Unibi(1e13)); err != nil {
+			t.Fatal(err)
+		}
+	}
+	c.EndBlock()
+	return w, g
 }
 
 func (w *world) beginCase(t *testing.T, minRate string) {
@@ -364,9 +481,22 @@ func (w *world) runTx(tx txIn) txObs {
 
 var shared *world
 
-func runCase(t *testing.T, ci caseIn, fresh bool) []txObs {
+func runCase(t *testing.T, ci caseIn, fresh bool) ([]txObs, *genObs) {
 	if ci.MinRate == "" {
 		ci.MinRate = "0"
+	}
+	if len(ci.GenTxs) > 0 {
+		w, g := newGenesisWorld(t, ci)
+		var obs []txObs
+		if g.Started {
+			for _, tx := range ci.Txs {
+				obs = append(obs, w.runTx(tx))
+			}
+		}
+		if os.Getenv("C17_DEBUG") != "" {
+			fmt.Printf("genesis %d gentxs -> started=%v vals=%v log=%.200s\n", len(ci.GenTxs), g.Started, g.Vals, g.Log)
+		}
+		return obs, &g
 	}
 	if shared == nil || fresh || shared.cases >= 40 {
 		shared = newWorld(t)
@@ -382,7 +512,7 @@ func runCase(t *testing.T, ci caseIn, fresh bool) []txObs {
 			shared = nil // a validator above the cap stays in this chain's state: do not let it leak into later cases
 		}
 	}
-	return obs
+	return obs, nil
 }
 
 // ---------------------------------------------------------------- generator
@@ -532,6 +662,36 @@ func genCase(r *Rng) caseIn {
 		ci.MinRate = "50000000000000000"
 	}
 	isVal := map[int]bool{}
+	if r.Chance(1, 7) {
+		// a genesis with gentxs: one validator within the cap (mostly), then more staking messages — bare, nested in
+		// exec, behind harmless messages — around and above the cap
+		first := r.Intn(nUsers)
+		rate := []string{"100000000000000000", "250000000000000000", "200000000000000000"}[r.Intn(3)]
+		if r.Chance(1, 6) {
+			rate = genRate(r)
+		}
+		ci.GenTxs = append(ci.GenTxs, txIn{Signer: first, Msgs: []node{{K: "create", Op: first, Rate: sp(rate), Max: one, Chg: one}}})
+		isVal[first] = true
+		for k := r.Intn(3); k > 0; k-- {
+			who := r.Intn(nUsers)
+			leaf := genStakingLeaf(r, who, isVal)
+			if leaf.K == "create" && r.Chance(2, 3) {
+				leaf.Rate = sp(rateChoices[r.Pick(6, 3, 2, 3, 3, 2, 2, 1, 0, 1, 2, 1)])
+			}
+			var t node = leaf
+			for d := r.Pick(3, 3, 2, 1); d > 0; d-- {
+				t = node{K: "exec", G: who, C: withDecoys(r, t, who)}
+			}
+			ms := []node{t}
+			if r.Chance(1, 3) {
+				ms = withDecoys(r, t, who)
+			}
+			ci.GenTxs = append(ci.GenTxs, txIn{Signer: who, Msgs: ms})
+			if leaf.K == "create" {
+				isVal[who] = true
+			}
+		}
+	}
 	// often start from existing validators with a high max rate, so that edits are live
 	if r.Chance(3, 5) {
 		for _, op := range []int{0, 1, 2, 3, idContract} {
@@ -647,6 +807,15 @@ func openers() []caseIn {
 		{Txs: []txIn{{Dt: 5, Signer: 1, Msgs: []node{chain(8, 1, cv(1, r25p))}}, {Dt: 5, Signer: 1, Msgs: []node{chain(12, 1, cv(1, r90))}},
 			{Dt: 5, Signer: 1, Msgs: []node{chain(8, 1, cv(1, r25))}}, {Dt: 5, Signer: 0, Msgs: []node{wa(chain(6, idContract, cv(idContract, r25p)))}},
 			{Dt: 86400, Signer: 1, Msgs: []node{chain(10, 1, node{K: "edit", Op: 1, Rate: sp(r25p)})}}}},
+		// gentxs (delivered from InitChain at block height 0): within the cap the chain starts and the validators can be
+		// edited later; above the cap — bare, nested in exec, or after harmless messages — InitChain must fail
+		{GenTxs: []txIn{{Signer: 1, Msgs: []node{cv(1, "100000000000000000")}}, {Signer: 2, Msgs: []node{ex(2, cv(2, r25))}}},
+			Txs: []txIn{{Dt: 86000, Signer: 1, Msgs: []node{node{K: "edit", Op: 1, Rate: sp(r25)}}}, {Dt: 400, Signer: 1, Msgs: []node{ex(1, node{K: "edit", Op: 1, Rate: sp(r25)})}},
+				{Dt: 5, Signer: 0, Msgs: []node{wa(cv(idContract, r90))}}, {Dt: 5, Signer: 0, Msgs: []node{wa(cv(idContract, "200000000000000000"))}}}},
+		{GenTxs: []txIn{{Signer: 1, Msgs: []node{cv(1, "300000000000000000")}}}, Txs: []txIn{{Dt: 5, Signer: 1, Msgs: []node{node{K: "send", From: 1}}}}},
+		{GenTxs: []txIn{{Signer: 1, Msgs: []node{cv(1, r25)}}, {Signer: 2, Msgs: []node{ex(2, cv(2, r25p))}}}, Txs: []txIn{}},
+		{GenTxs: []txIn{{Signer: 3, Msgs: []node{node{K: "send", From: 3}, ex(3, node{K: "send", From: 3}), cv(3, r90)}}}, Txs: []txIn{}},
+		{GenTxs: []txIn{{Signer: 1, Msgs: []node{cv(1, "50000000000000000")}}, {Signer: 1, Msgs: []node{node{K: "edit", Op: 1, Rate: sp("60000000000000000")}}}}, Txs: []txIn{}},
 		// extension options: the EVM chain admits MsgEthereumTx only, unknown options are rejected
 		{Txs: []txIn{{Dt: 5, Ext: "evm", Signer: 1, Msgs: []node{cv(1, r90)}}, {Dt: 5, Ext: "evm", Signer: 1, Msgs: []node{ex(1, cv(1, r25))}},
 			{Dt: 5, Ext: "other", Signer: 1, Msgs: []node{cv(1, r25)}}, {Dt: 5, Signer: 1, Msgs: []node{cv(1, r25)}}}},
@@ -661,8 +830,12 @@ func TestC17(t *testing.T) {
 	em := NewEmitter(t, cfg.Out)
 	defer em.Close()
 	run := func(ci caseIn) {
-		obs := runCase(t, ci, cfg.Replay != "")
-		em.Emit(ci, obs, map[string]interface{}{"cap": rawOf(ante.MAX_COMMISSION())})
+		obs, g := runCase(t, ci, cfg.Replay != "")
+		extra := map[string]interface{}{"cap": rawOf(ante.MAX_COMMISSION())}
+		if g != nil {
+			extra["genesis"] = g
+		}
+		em.Emit(ci, obs, extra)
 		if os.Getenv("C17_DEBUG") != "" {
 			for i, o := range obs {
 				bz, _ := json.Marshal(ci.Txs[i])
